@@ -503,8 +503,10 @@ fn image_doc_case(ctx: &mut Ctx, es: &[Ent]) {
     if r.is_err() {
         ctx.out.fail("Image deserialisation panicked", input.clone(), json!("Ok or Err"), json!("panic"));
     }
-    if max_req > ALLOC_CAP {
-        ctx.out.fail("Image deserialisation requests an allocation proportional to the declared size", input.clone(), json!(format!("<= {ALLOC_CAP} bytes")), json!(max_req));
+    if max_req > ALLOC_CAP && !alloc_backed(max_req, text.len()) {
+        ctx.out.fail("Image deserialisation allocates in proportion to the declared size before / without the data length check", input.clone(), json!(format!("<= {ALLOC_CAP} bytes or backed by the document's own length")), json!(max_req));
+    } else if max_req > ALLOC_CAP {
+        ctx.large_allocations += 1;
     }
     let shown = image_res_wire(&r);
     let wire: Vec<String> = es.iter().map(ent_wire).collect();
